@@ -508,6 +508,16 @@ class Machine:
                     "slt": a < b, "sle": a <= b, "sgt": a > b, "sge": a >= b}[pred])
 
     def dom_icmp(self, pred, a, b, ins):
+        def isc(x):
+            return isinstance(x, tuple) and x and x[0] == "cond"
+        if isc(b) and isinstance(a, int):
+            a, b = b, a
+        if isc(a) and isinstance(b, int) and pred in ("eq", "ne"):
+            # an opaque integer result tested against a constant: only "is it zero" is observable
+            if b == 0:
+                return a if pred == "ne" else ("cond", ("not", a[1]))
+            if b == 1:
+                return a if pred == "eq" else ("cond", ("not", a[1]))
         raise Unsupported("icmp on abstract values %r %r" % (a, b))
 
     def intop(self, op, a, b, bits):
@@ -568,6 +578,7 @@ class Machine:
         raise Unsupported("integer op %s on abstract values" % op)
 
     def do_call(self, env, ins, fname):
+        self.cur_ty = ins.get("ty", "")
         cal = ins.get("callee", "")
         ops = ins.get("ops", [])
         args = [self.val(env, o) for o in ops]
